@@ -5,6 +5,9 @@ VERIF = os.path.dirname(os.path.dirname(os.path.abspath(__file__)))
 
 # id -> (category, technique, text, note, design_ref)
 CHECKS = {
+    'C10': ('exploration', 'exhaustive enumeration of status codes through the real driver (scripted backend in the monitor driver mpmon), judged against the documented table',
+            'Every code -200..999 x presence of primal/dual/objective values is scripted into a real driver run (RunBackendApp, FlatBackend<MIPBackend>, real .sol writer); the classification predicates, the solve message, the objno line of the parsed .sol and the -! table are compared with the ranges in features-guide.rst. Exhaustive over the stated finite space.',
+            'the documentation table is the specification; the .sol is parsed by our own strict parser; one fixed 3-variable LP', '2/C10'),
     'C15': ('fault_enumeration', 'schedule enumeration by hook-driven signal delivery on the real SignalHandler (one child process per schedule) + timer-driven asynchronous delivery; oracle over recorded Stop()/callback/exit observations',
             'All 1770 schedules of 1-3 SIGINT/SIGTERM deliveries over the 20 named delivery points (inside the constructor, between the stores of both SetHandler calls, inside the destructor, and at the life-cycle steps) are executed against the real code; for each, the later Stop() values, the (function,data) pairs the callbacks saw, the <BREAK> count and the exit status are judged. Asynchronous timer-driven delivery adds instruction-level delivery points between the hooks.',
             'exhaustive over the named points for <=3 signals; instruction-level points between hooks are only sampled; delivery is on the main thread', '2/C15'),
